@@ -1,15 +1,51 @@
 import subprocess
 HOOK_COMMITS = subprocess.run(['git','-C','/repo','log','--format=%H %s','--grep=verif hook'],capture_output=True,text=True).stdout.strip().split('\n')
 CLAIMED = {
+ 'C01': dict(
+   text='opus_decode_native (real body) is proved, at each of the five sampling rates, to return a documented error code or a sample count in (0, frame_size], to keep the decoder invariant, to reject bad decode_fec / non-2.5-ms PLC durations, and to set last_packet_duration; recursion unwound, PLC and frame loops under loop contracts. The framing layer it relies on is C06, the range-decoder reads C08, the SILK clamps C18.',
+   note='PARTIAL. Trusted: the ASSUMED contract of opus_decode_frame (400 lines of float DSP glue, not verified), a parser stub carrying exactly the clauses enforced under C06, a frame-only stub of opus_pcm_soft_clip. Not covered: CELT/SILK synthesis, finiteness of samples, multistream/projection decode, opus_decode/opus_decode24 wrappers, whole-decoder termination.'),
+ 'C05': dict(
+   text='The range encoder output layer (ec_write_byte, ec_write_byte_at_end, ec_enc_carry_out, ec_enc_bits, ec_enc_shrink, ec_enc_done) is proved never to write outside buf[0..storage) and to set the error flag instead; the repacketizer never exceeds maxlen (bounded check).',
+   note='PARTIAL. The CBR byte count, OPUS_BITRATE_MAX fill, CVBR average and the multistream rate split are inline arithmetic inside opus_encode_native / celt_encode_with_ec with no callee boundary to hang a contract on: not covered. Repacketizer part is a bounded stand-in (class B).'),
  'C06': dict(
-   text='Function contracts on the real packet parser and TOC helpers are enforced by CBMC for every byte string of any length (loop contracts, no unwinding bound); acceptance-iff-RFC is a bounded stand-in.',
-   note='Trusted: CBMC/DFCC/MiniSat, machine model LP64. Bounded groups are labelled class B in the evidence and not counted as proved.'),
+   text='Contracts on the real parser and size helpers: parse_size and the full E1-E9 contract of opus_packet_parse_impl are enforced for TOC codes 0-2 and 1-byte code-3 packets for every length (no bound); code 3 is proved in the thorough tier per sub-case (padding chain, CBR by count range, VBR with ghost prefix sums). Acceptance-iff-RFC against an independent transcription of RFC 6716 section 3 / Appendix B is a bounded stand-in (<= 8 bytes quick).',
+   note='Quick tier: P for codes 0-2, B for code 3 and for over-rejection. Header helpers other than samples_per_frame/nb_frames are not under contract yet. Trusted: CBMC/DFCC/CaDiCaL, LP64.'),
+ 'C07': dict(category='other', technique='bounded stand-in (plain CBMC, loops unwound) of the contract clauses on the real code; no unbounded group yet',
+   text='Bounded check on the real repacketizer, parser and extension code: two symbolic packets are concatenated, emitted and re-parsed; acceptance conditions, byte-for-byte frame preservation, maxlen handling, pad/unpad length and idempotence are asserted for every input inside the bound.',
+   note='Class B only (2 packets of <= 5 bytes, <= 3 frames each): a bounded stand-in, not a proof. The representation-invariant contracts of cat/out_range (P) are not built. Decoded-audio equality after padding is out of reach.'),
+ 'C08': dict(
+   text='Per-operation contracts of the range coder enforced on the real bodies (state invariant incl. "low+range does not wrap", frame, byte accounting of the carry run), enc/dec lock-step of rng / bit counts on the real pairs (bit_logp, raw bits, power-of-two tables per table width), ec_tell_frac == reference recurrence; symbol-for-symbol inversion on 2-operation sequences is a bounded stand-in.',
+   note='NOT discharged and reported as assumed where used: the range facts of ec_encode / ec_encode_bin / ec_enc_icdf(16) / ec_dec_icdf (1 <= r*(fh-fl) <= rng needs multiplication/division monotonicity; no SAT result within an hour) and lock-step for symbolic ft. storage >= 1 and <= 2^30 assumed. Inversion over long sequences is bounded (2 ops quick, 3 thorough).'),
+ 'C09': dict(
+   text='The duration and argument rules of PLC/FEC in opus_decode_native: null packet or decode_fec with a frame_size that is a multiple of 2.5 ms returns exactly frame_size (or a decoder error) and records it; other durations are rejected with OPUS_BAD_ARG; a failed PLC restores last_packet_duration.',
+   note='PARTIAL, same proof units and trusted base as C01 (ASSUMED opus_decode_frame contract). Audio-quality clauses (bounded level, decay, FEC accuracy, re-convergence) are not expressible as contracts here.'),
+ 'C10': dict(
+   text='validate_layout accepts exactly the well-formed layouts; get_left/right/mono_channel return the first matching channel after prev (loops bounded by the 255-channel limit, fully unwound, layout symbolic).',
+   note='PARTIAL (class F for the helpers). Multistream packet walk, per-stream state layout, routing theorem, surround tables and the demixing-matrix lemma are not built.'),
+ 'C11': dict(
+   text='Every SET/GET pair of opus_encoder_ctl and opus_decoder_ctl listed in the evidence is proved on a fully symbolic state for all 2^32 argument values: legal => OK, read back, no other setting changes (documented couplings excepted); illegal => OPUS_BAD_ARG and nothing changes; null pointer => BAD_ARG; unknown request => UNIMPLEMENTED. Decoder init/get_size/create argument validation, allocation failure and no leak.',
+   note='Trusted: one-line stub bodies for celt_encoder_ctl / celt_decoder_ctl and the sub-decoder size/init functions. Not built: multistream/projection ctl forwarding, encoder init/create, gen_toc and frame_size_select, settings honoured by later packets.'),
+ 'C12': dict(
+   text='Decoder OPUS_RESET_STATE on an arbitrary state leaves every setting and makes the stream state equal to what opus_decoder_init gives; sub-states live at aligned, disjoint offsets (not pointers) inside opus_decoder_get_size() bytes.',
+   note='PARTIAL: determinism and copyability over histories are two-run properties of the whole codec and are not applicable; encoder reset not built; the sub-state resets are stubs.'),
+ 'C13': dict(
+   text='Loop-free lemmas over the whole float / int16 domain on the real conversion macros: the three encoder input views are bit-identical, RES2INT16 is saturate(round(2^15 x)), RES2INT24 is round(2^23 x).',
+   note='PARTIAL: the wrapper loops (opus_encode*, opus_decode*, multistream copy functions) and "identical packets" are not built. float2int is verified in its C99 lrintf form (-U__SSE__).'),
+ 'C16': dict(
+   text='skip_extension_payload and skip_extension contracts enforced for every length (lacing loop under a loop contract); generate->parse round trips, dry-run size, exact-size buffer, one-byte-short refusal and iterator/count/parse agreement are bounded stand-ins.',
+   note='Quick: P for the two skip functions, B (n extensions x f frames, k arbitrary bytes) for the rest. The iterator representation invariant and repacketizer carriage are not built.'),
+ 'C17': dict(
+   text='Finite-complete checks on the real tables and the real Laplace coder: all 37 ICDF tables strictly decreasing per sub-table and zero-terminated; PVQ table layout and recurrence without wrap; for all 168 (fs, decay) pairs and every code point the Laplace intervals tile [0,32768) and decode inverts encode.',
+   note='cwrsi/icwrs bijection only as a small bounded check (thorough). Pulse-cache consistency with log2 V is not checkable (generator compiled only under CUSTOM_MODES). Laplace uses recording stubs for the three range-coder primitives.'),
  'C18': dict(
    text='silk_NLSF_stabilize / silk_NLSF_decode with the real codebook tables, silk_gains_dequant, silk_gains_quant+dequant agreement and silk_decode_pitch are proved for every index value the bitstream can carry (all loops constant-bounded by the codec order / sub-frame count, or under a loop contract).',
    note='Filter stability (silk_NLSF2A / silk_LPC_inverse_pred_gain) is not covered. Trusted: CBMC/DFCC/CaDiCaL, LP64.'),
+ 'C19': dict(
+   text='opus_pcm_soft_clip: degenerate arguments (any N<1, C<1, null pointers) touch nothing (full domain); bit-exact pass-through of in-range input and memory safety on arbitrary non-NaN input are bounded stand-ins for small concrete (N, C).',
+   note='PARTIAL: output in [-1,1], sign preservation and the decoder-gain clauses need non-linear float reasoning (a 1-sample range lemma with one float division times out): not applicable to this technique.'),
  'C20': dict(
    text='Exact transition function of decide_dtx_mode enforced as a contract; the 200 ms / 400 ms bounds and the in-DTX predicate follow from an inductive invariant over a ghost run length, so they hold for every call history.',
    note='Emission inside opus_encode_native (that the 1-byte packet is produced exactly when the automaton says so), the SILK noSpeechCounter path and decoder-side CNG are not covered.'),
 }
 _NR = 'not reached yet in this build-out (planned in DESIGN.md); no check is registered so nothing is claimed'
-NOT_REACHED = {p: _NR for p in ['C01','C05','C07','C08','C09','C10','C11','C12','C13','C16','C17','C19']}
+NOT_REACHED = {}
